@@ -285,6 +285,12 @@ def value_sites():
         t, u = P.Table("t"), P.Table("u")
         return Qc.from_(t).select(t.a).where(t.b == V).union(Qc.from_(u).select(u.a).where(u.b == V))
 
+    @site("mysql-load-file", only=(MySQLQuery,))
+    def _(N, V, Qc):
+        if not isinstance(V, str):
+            raise ValueError("a file name")
+        return MySQLQuery.load(V).into(P.Table("t"))
+
     @site("column-default")
     def _(N, V, Qc):
         return P.Query.create_table(P.Table("t")).columns(P.Column("a", "VARCHAR(20)", default=V), P.Column("b", "INT"))
